@@ -26,8 +26,8 @@ type LoopSpec struct {
 	Deterministic bool
 	DetStar       bool
 	DetProps      []string
-	Invariants []*Clause
-	Modifies   []string // extra heap keys havocked (rarely needed)
+	Invariants    []*Clause
+	Modifies      []string // extra heap keys havocked (rarely needed)
 }
 
 type LetDef struct {
@@ -43,34 +43,34 @@ type CallSpec struct {
 // Contract is the specification of one function (in /repo, or an assumed one
 // for a dependency).
 type Contract struct {
-	Kind       string // func | extern | iface | callspec
-	Name       string // contract-level name ("(*mux).Vars", "errors.As", "net/http.ResponseWriter.Header")
-	Pkg        string // import path of the package (func contracts)
-	Params     []string
-	Props      []string
-	Requires   []*Clause
-	Ensures    []*Clause
-	Modifies   []*CExpr // nil = not stated
+	Kind            string // func | extern | iface | callspec
+	Name            string // contract-level name ("(*mux).Vars", "errors.As", "net/http.ResponseWriter.Header")
+	Pkg             string // import path of the package (func contracts)
+	Params          []string
+	Props           []string
+	Requires        []*Clause
+	Ensures         []*Clause
+	Modifies        []*CExpr // nil = not stated
 	UnknownPreserve []*CExpr
-	Preserves  []*CExpr // with modifies all: heap keys that are nevertheless unchanged (T.f, elems(*T), global(v))
-	ModAll     bool
-	ModNone    bool
-	ModStated  bool
-	Loops      map[int]*LoopSpec
-	Lets       []*LetDef
-	CallSpecs  map[string]*Contract
-	Inline     bool
-	NoInline   bool
-	Trusted    bool // contract assumed, body not verified (externs are always trusted)
-	Replay     string
-	Panics     []*Clause
-	Splits     []*Clause
-	Asserts    []*AssertSpec
-	Pure       bool
-	File       string
-	Opts       map[string]string
-	FrameStar  bool // the frame obligation is a ★ obligation (C20)
-	FrameProps []string
+	Preserves       []*CExpr // with modifies all: heap keys that are nevertheless unchanged (T.f, elems(*T), global(v))
+	ModAll          bool
+	ModNone         bool
+	ModStated       bool
+	Loops           map[int]*LoopSpec
+	Lets            []*LetDef
+	CallSpecs       map[string]*Contract
+	Inline          bool
+	NoInline        bool
+	Trusted         bool // contract assumed, body not verified (externs are always trusted)
+	Replay          string
+	Panics          []*Clause
+	Splits          []*Clause
+	Asserts         []*AssertSpec
+	Pure            bool
+	File            string
+	Opts            map[string]string
+	FrameStar       bool // the frame obligation is a ★ obligation (C20)
+	FrameProps      []string
 }
 
 // AssertSpec is an assertion attached to the N-th instruction of a kind
@@ -316,7 +316,7 @@ func (sp *Specs) loadSpecFile(path, pkg string) error {
 				if g.Read, err = parseCExpr(r2[len("read "):wi]); err != nil {
 					return fail(l, "%v", err)
 				}
-				if g.Write, err = parseCExpr(r2[wi+len(" write "):end]); err != nil {
+				if g.Write, err = parseCExpr(r2[wi+len(" write ") : end]); err != nil {
 					return fail(l, "%v", err)
 				}
 				sp.Guards = append(sp.Guards, g)
